@@ -508,3 +508,9 @@ Section Bundled.
       eapply (ag_rogue_key_victim_invalid F f0 f1 fadd fmul fsub fopp feqb R E); eauto.
   Qed.
 End Bundled.
+
+(* the callers ignore Verify's bool; in the model of the code a false answer always carries an error,
+   so looking at err only loses nothing *)
+Lemma ag_caller_view_agrees : forall v : ag_verdict,
+  ag_caller_accepts (ag_go_result v) = match v with AgAccept => true | _ => false end.
+Proof. intros []; reflexivity. Qed.
